@@ -104,7 +104,7 @@ UNCOVERED.update({
     "C03": ["lazy(): bounded to 2 trailing tokens", "the identity of the primary error at top level is compared natively only (reading the error buffer is out of CBMC's reach)"],
     "C04": ["to_slice/ignored etc. are compared with their value-building form through a common specification, not by a two-run product"],
     "C05": ["error list contents compared by length under CBMC", "recovery inside folds: by composition only"],
-    "C06": ["internals of Rich::merge_expected_found / replace_expected_found / Simple / Cheap are not proved (only their contract use)", "filter(): found token of a rejection is not asserted (the library reports none)"],
+    "C06": ["Rich::merge (RichReason::flat_merge, the add_alt_err path of user-supplied errors) exhausts CBMC's memory (> 24 GB in every case split tried): not under contract; its twin on the add_alt path, Rich::merge_expected_found, is (bounded: one expectation per side)", "the real error types are proved with a bounded number of expectations per error (<= 2; <= 1 per side for merges), spans / found tokens / pattern kinds fully symbolic; Vec growth (realloc) is not exercised (lists are built with spare capacity)", "filter(): found token of a rejection is not asserted (the library reports none)"],
     "C07": ["foldr_with per-item spans", "IterInput/MappedInput empty-match clause is a recorded finding", "Stream/IoInput slices n/a"],
     "C08": ["nested_delimiters (composition of proved combinators)", "skip strategies bounded to 2 rounds"],
     "C09": ["pratt_go loop bounded (2 operands, stubs emit nothing)", "tuple tables of arity > 2", "prefix/postfix tables"],
@@ -114,7 +114,7 @@ UNCOVERED.update({
     "C14": ["regex()", "unicode::ident / keyword beyond ASCII (unicode-ident tables)", "Graphemes", "text parsers bounded to 3 remaining tokens"],
     "C15": ["configure() inside recursion/choices: by induction (context is a plain reference parameter)"],
     "C16": ["inner emitted errors are re-homed at the outer cursor (documented TODO in the library); their spans are not asserted"],
-    "C17": ["Rich::label_with / in_context internals", "as_context's decoration of already emitted errors (loop) is only exercised with <= 2 errors"],
+    "C17": ["Rich::label_with / in_context: bounded to <= 2 expectations / 2 contexts", "as_context's decoration of already emitted errors (loop) is only exercised with <= 2 errors"],
     "C18": ["with_state: the invariant is deliberately not maintained for the outer inspector across with_state (by design of with_state)", "nested_in shares the inspector between outer and inner input (by design)"],
     "C19": ["N > 3", "Rc/Arc ContainerExactly impls are commented out in the library"],
     "C20": ["termination / time complexity / stack depth are not decided", "debug_assert progress checks compiled out in driver harnesses", "memoized() (C11 not applicable)"],
